@@ -35,6 +35,7 @@ import (
 
 type c16Sess struct {
 	kind      byte
+	variant   byte // ops O<x> / Q<x>: what the client's offer (x in p l n 6 m) or data channel (u) looks like
 	client    *webrtc.PeerConnection
 	offer     string
 	relayOnce sync.Once
@@ -73,7 +74,8 @@ func (e *c16Env) relayURL(i int) string {
 
 // With negotiated set the client's only data channel is pre-negotiated: the client connects
 // (ICE, DTLS, SCTP) but never sends DATA_CHANNEL_OPEN, so the proxy's OnDataChannel never fires.
-func c16NewClient(negotiated bool, connected *int32) (*webrtc.PeerConnection, string, error) {
+// variant 'u': an unordered, unreliable data channel with an empty label and a protocol string.
+func c16NewClient(negotiated bool, connected *int32, variant byte) (*webrtc.PeerConnection, string, error) {
 	pc, err := webrtc.NewPeerConnection(webrtc.Configuration{})
 	if err != nil {
 		return nil, "", err
@@ -84,11 +86,16 @@ func c16NewClient(negotiated bool, connected *int32) (*webrtc.PeerConnection, st
 		}
 	})
 	var init *webrtc.DataChannelInit
+	label := "c16"
 	if negotiated {
 		yes, id := true, uint16(0)
 		init = &webrtc.DataChannelInit{Negotiated: &yes, ID: &id}
+	} else if variant == 'u' {
+		no, zero, proto := false, uint16(0), "c16-proto"
+		init = &webrtc.DataChannelInit{Ordered: &no, MaxRetransmits: &zero, Protocol: &proto}
+		label = ""
 	}
-	if _, err = pc.CreateDataChannel("c16", init); err != nil {
+	if _, err = pc.CreateDataChannel(label, init); err != nil {
 		return nil, "", err
 	}
 	offer, err := pc.CreateOffer(nil)
@@ -100,8 +107,80 @@ func c16NewClient(negotiated bool, connected *int32) (*webrtc.PeerConnection, st
 		return nil, "", err
 	}
 	<-done
-	s, err := util.SerializeSessionDescription(pc.LocalDescription())
+	desc := *pc.LocalDescription()
+	if variant != 0 {
+		// only the text handed to the proxy is rewritten; the client keeps its real addresses and
+		// reaches the proxy through the candidates of the proxy's answer (the proxy learns the
+		// client's address from the connectivity checks: peer-reflexive candidate)
+		desc.SDP, err = c16RewriteOffer(desc.SDP, variant)
+		if err != nil {
+			return nil, "", err
+		}
+	}
+	s, err := util.SerializeSessionDescription(&desc)
 	return pc, s, err
+}
+
+var c16LocalV4 = []string{"10.7.7.7", "172.16.9.9", "192.168.1.77", "100.64.3.3", "169.254.1.1", "127.0.0.1"}
+var c16LocalV6 = []string{"fd12:3456::7", "::1"}
+
+// c16RewriteOffer gives the offer the shape named by variant:
+//
+//	p  as produced (on the test host: a host candidate the proxy takes for a public address)
+//	l  only local addresses: RFC1918, CGNAT, link-local, loopback, ULA (a client started with
+//	   -keep-local-addresses on a LAN)
+//	n  no candidates at all
+//	6  IPv6 candidates only, with a public-looking address
+//	m  mDNS (".local") candidates only
+//	u  as produced (the data channel differs, see c16NewClient)
+//
+// and checks that webRTCConn.RemoteAddr() will see what the variant is about.
+func c16RewriteOffer(sdp string, variant byte) (string, error) {
+	var out []string
+	n := 0
+	for _, line := range strings.Split(sdp, "\r\n") {
+		if !strings.HasPrefix(line, "a=candidate:") {
+			out = append(out, line)
+			continue
+		}
+		f := strings.Split(line, " ")
+		if len(f) < 6 {
+			return "", fmt.Errorf("candidate line %q", line)
+		}
+		v6 := strings.Contains(f[4], ":")
+		switch variant {
+		case 'p', 'u':
+		case 'l':
+			if v6 {
+				f[4] = c16LocalV6[n%len(c16LocalV6)]
+			} else {
+				f[4] = c16LocalV4[n%len(c16LocalV4)]
+			}
+		case 'n':
+			continue
+		case '6':
+			f[4] = "2001:db8::77"
+		case 'm':
+			f[4] = fmt.Sprintf("5e7e1a2b-0000-4000-8000-%012d.local", n)
+		default:
+			return "", fmt.Errorf("variant %c", variant)
+		}
+		n++
+		out = append(out, strings.Join(f, " "))
+	}
+	res := strings.Join(out, "\r\n")
+	ip := remoteIPFromSDP(res)
+	switch variant {
+	case 'l', 'n', 'm':
+		if ip != nil {
+			return "", fmt.Errorf("variant %c: the offer still has the remote address %v", variant, ip)
+		}
+	default:
+		if ip == nil {
+			return "", fmt.Errorf("variant %c: the offer has no remote address", variant)
+		}
+	}
+	return res, nil
 }
 
 func c16PollBody(offer, relayURL string) []byte {
@@ -333,10 +412,15 @@ func (e *c16Env) end(kind byte, i int) string {
 		e.mu.Lock()
 		ws := s.ws
 		e.mu.Unlock()
-		if ws == nil {
+		if ws == nil && s.client != nil && strings.IndexByte("oA", s.kind) >= 0 {
+			// no handler ever reached the relay for this session (the wait after the session op has
+			// expired): all that can still end it is its client
+			s.client.Close()
+		} else if ws == nil {
 			return "!badop"
+		} else {
+			ws.Close()
 		}
-		ws.Close()
 	case '-':
 		if !c16Guard(tokens.ret) {
 			return "!blocked-ret"
@@ -397,6 +481,13 @@ func (e *c16Env) op(o string) string {
 		return e.result(true)
 	}
 	s := &c16Sess{kind: kind, relayConn: make(chan struct{})}
+	if (kind == 'O' || kind == 'Q') && len(o) == 2 && strings.IndexByte("pln6mu", o[1]) >= 0 {
+		// the sessions o / q with a client whose offer or data channel has the given shape
+		kind = kind + ('o' - 'O')
+		s.kind, s.variant = kind, o[1]
+	} else if kind == 'O' || kind == 'Q' {
+		return "!badop"
+	}
 	if kind == 'w' && len(o) > 1 {
 		// w<round>/<round>/...  round = "_" or '.'-separated ids of sessions to end
 		for _, r := range strings.Split(o[1:], "/") {
@@ -413,11 +504,11 @@ func (e *c16Env) op(o string) string {
 			s.rounds = append(s.rounds, ids)
 		}
 		s.answered = make(chan struct{}, len(s.rounds))
-	} else if len(o) != 1 || strings.IndexByte("ejsxkunbrRpagmtToqA+", kind) < 0 {
+	} else if s.variant == 0 && (len(o) != 1 || strings.IndexByte("ejsxkunbrRpagmtToqA+", kind) < 0) {
 		return "!badop"
 	}
 	if strings.IndexByte("brRqagmtToA", kind) >= 0 {
-		pc, offer, err := c16NewClient(kind == 'T', &s.connected)
+		pc, offer, err := c16NewClient(kind == 'T', &s.connected, s.variant)
 		if err != nil {
 			return "!client " + err.Error()
 		}
@@ -495,7 +586,7 @@ func (e *c16Env) startOp(o string) string {
 		}
 		s := &c16Sess{kind: kind, relayConn: make(chan struct{})}
 		if strings.IndexByte("brqagmoA", kind) >= 0 {
-			pc, offer, err := c16NewClient(false, &s.connected)
+			pc, offer, err := c16NewClient(false, &s.connected, 0)
 			if err != nil {
 				return "!client " + err.Error()
 			}
